@@ -447,6 +447,70 @@ theorem preview_byte_test_not_total :
 /-- a negative limit would be out of range as well: the `max(0, StringTruncate)` clamp is needed -/
 theorem preview_unclamped_negative_panics : (previewTruncate 3 (-1)).isPanic = true := by decide
 
+/-! ## the column writers of the hex dump (internal/asciiwriter, internal/hexpairwriter)
+
+    The length of a formatted byte is user controlled: `byte_colors` values are `+`-joined lists
+    of colour names of any length (ansi.FromString), each adding to the escape sequence. -/
+
+/-- asciiwriter: for EVERY line width ≥ 1, start offset, split of the data into Write calls and
+    EVERY length of every formatted byte, no index or slice is out of range -/
+theorem ascii_writer_total (width start : Nat) (hw : 1 ≤ width) (chunks : List (List Nat)) :
+    (writeAll asciiWrite (asciiNew width start) 0 chunks).noFault = true := by
+  have hg := writeAll_ascii_good chunks (asciiNew width start) 0 hw
+    ⟨by show 0 ≤ width * 11 + 2; omega, by show 1 ≤ width * 11 + 2; omega⟩
+  revert hg
+  cases writeAll asciiWrite (asciiNew width start) 0 chunks with
+  | ok r => intro _; rfl
+  | err k => intro _; rfl
+  | panic w => intro h; exact h.elim
+  | resource w => intro h; exact h.elim
+
+/-- seeded change S3-C13-1 (the +1 for the newline moved out of the capacity test): a line whose
+    formatted bytes fill the buffer exactly — line_bytes 2 with three 12-byte characters
+    (bgbright* colours), or 16 with fourteen 11-byte and two 12-byte ones — indexes one past the end -/
+theorem ascii_writer_seeded_panics :
+    (writeAll asciiWriteSeeded (asciiNew 2 0) 0 [[12, 12, 12]]).isPanic = true ∧
+    (writeAll asciiWriteSeeded (asciiNew 16 0) 0
+      [[12, 12, 11, 11, 11, 11, 11, 11, 11, 11, 11, 11, 11, 11, 11, 11, 11]]).isPanic = true ∧
+    writeAll asciiWrite (asciiNew 2 0) 0 [[12, 12, 12]] = .ok (⟨2, 0, 3, 50, 0⟩, 37) := by
+  decide
+
+/-- hexpairwriter, the code as it is: a fixed buffer of width*200+1 bytes that is never grown.
+    KNOWN FINDING hexpairwriter-fixed-buffer (found while widening the byte_colors dimension,
+    replayed on the real binary): a colour value of 40 `+`-joined names makes every formatted
+    byte 285 bytes long: index out of range -/
+theorem hexpair_writer_long_colour_panics :
+    (hexpairWrite (hexpairNew 2 0) [285, 285, 285, 285, 285, 285]).isPanic = true ∧
+    hexpairWrite (hexpairNew 2 0) [12, 12, 12] = .ok (⟨2, 0, 3, 401, 0⟩, 38) := by
+  decide
+
+theorem hexpair_writer_total_false : ¬ ∀ width start p, 1 ≤ width → (hexpairWrite (hexpairNew width start) p).noFault = true := by
+  intro h
+  have := h 2 0 [285, 285, 285, 285, 285, 285] (by decide)
+  revert this
+  decide
+
+/-- PARTIAL.  Full statement: `∀ width ≥ 1, start, p, (hexpairWrite (hexpairNew width start) p).noFault`
+    — FALSE (`hexpair_writer_total_false`).  Proved: every Write whose formatted bytes are at most
+    199 bytes long each (the invariant is bufOffset ≤ 1 + 200·(offset mod width)) -/
+theorem hexpair_writer_total_partial (width start : Nat) (hw : 1 ≤ width) (p : List Nat) (hp : ∀ c ∈ p, c ≤ 199) :
+    (hexpairWrite (hexpairNew width start) p).noFault = true := by
+  unfold hexpairWrite hexpairNew
+  have hw0 : (width == 0) = false := by simp; omega
+  simp only [hw0]
+  have key : ∀ h : LineWriter, HpInv h → (hexpairLoop h ((start - 0) * 3) p).noFault = true := by
+    intro h hinv
+    have hg := hexpairLoop_good p hp h ((start - 0) * 3) hinv
+    revert hg
+    cases hexpairLoop h ((start - 0) * 3) p with
+    | ok r => intro _; rfl
+    | err k => intro _; rfl
+    | panic w => intro h; exact h.elim
+    | resource w => intro h; exact h.elim
+  have hm : max 0 start = start := Nat.max_eq_right (Nat.zero_le _)
+  simp only [hm, gt_iff_lt, Nat.lt_irrefl, Bool.false_eq_true, if_false, Outcome.bind]
+  exact key ⟨width, start, start, width * 200 + 1, 0⟩ ⟨hw, rfl, Nat.zero_le _⟩
+
 /-! ## _stdio_read -/
 
 /-- `_stdio_read(fd; l)` is fault-free for every fd name and every length -/
